@@ -214,6 +214,14 @@ def gen_strings(rng, thorough):
             for m2 in allm:
                 if m1 in CLASS_MARKS or m2 in CLASS_MARKS:
                     texts.append([s, m1, m2])
+    # a NON-composing mark of combining class 0 (combining grapheme joiner, enclosing marks, Cyrillic hundred-thousands /
+    # millions signs) between a starter and a mark that would compose with it: it is a starter itself, so it blocks
+    for s in (0x61, 0x6F, 0x438, 0x3B1):
+        for z in (0x20DD, 0x20E0, 0x0488, 0x0489):   # (U+034F has class 0 too, but is default-ignorable: C13)
+            for m in MARKS[:9]:
+                texts.append([s, z, m])
+                texts.append([s, m, z, MARKS[0]])
+                texts.append([s, z, m, 0x323])
     # starter + a composing mark of combining class 0 (two-part vowels, length marks): only adjacency lets them compose
     for (a, b) in SS_PAIRS:
         texts.append([a, b])
